@@ -22,7 +22,7 @@ class C17(PureCheck):
     subst_every = 6
     rule = ("every string of length <=4 (quick) / <=5 (thorough) over the 13-symbol alphabet {a, newline, ESC, 0x9B, '[', "
             "'1', '3', ';', '?', space, 'm', 'H', 'K'} plus seeded random strings of length 5..10 over it and a corpus of "
-            "real-world samples (pygments-style, text that looks like a % / {} format string next to unsupported sequences, ESC[m, 38;5;n, cursor moves, OSC, truncated/nested sequences) and numeric control sequences with every parameter list of <=2 (thorough <=3, plus sampled longer ones) over a 22-number vocabulary (SGR codes supported and not, 38/48/58 selectors cut off at every point, empty parameters); fmtstr and "
+            "real-world samples (pygments-style, text that looks like a % / {} format string next to unsupported sequences, ESC[m, 38;5;n, cursor moves, OSC, truncated/nested sequences) and numeric control sequences with every parameter list of <=2 (thorough <=3, plus sampled longer ones) over a 22-number vocabulary (SGR codes supported and not, 38/48/58 selectors cut off at every point, empty parameters); the corpus also as instances of str subclasses whose __str__ is not their characters (a masked secret, a (str, Enum) member); fmtstr and "
             "FmtStr.from_str alternately; the result text is validated by TLC against the ECMA-48 scanner of Scan.tla. "
             "distinct_nontrivial = distinct inputs containing an introducer (ESC or 0x9B)")
     exhaustive = {"quick": False, "thorough": False}
@@ -60,6 +60,9 @@ class C17(PureCheck):
         for s in CORPUS:
             yield {"op": "any", "s": enc.enc_text(s), "via": 0}
             yield {"op": "any", "s": enc.enc_text(s), "via": 1}
+        for k, s in enumerate(CORPUS + ["a", "ab\nc", "x y", "\x1b[31mred", "m", "Label.ITEM"]):
+            for sub in (1, 2):
+                yield {"op": "any", "s": enc.enc_text(s), "via": (k + sub) % 2, "sub": sub}
         for s in CORPUS:
             yield {"op": "any", "s": enc.enc_text(s), "via": 0, "pre": 1}
         # a growing line: every corpus sample of up to 48 characters right after each of its proper prefixes
@@ -94,10 +97,28 @@ class C17(PureCheck):
                 (FmtStr.from_str if inp["via"] else fmtstr)(s[:inp["pref"]])
             except Exception:  # noqa
                 pass
+        if inp.get("sub"):
+            # the argument is an instance of a str subclass whose display form (__str__) is not its characters:
+            # a secret that prints masked, a member of a (str, Enum) enumeration
+            import enum
+            if inp["sub"] == 1:
+                class Masked(str):
+                    def __str__(self):
+                        return "<masked>"
+
+                    def __repr__(self):
+                        return "Masked(...)"
+                s = Masked(s)
+            else:
+                s = enum.Enum("Label", {"ITEM": s}, type=str).ITEM
         if inp["via"]:
             ev["res"] = fmtlib.enc_res(lambda: FmtStr.from_str(s))
         else:
             ev["res"] = fmtlib.enc_res(lambda: fmtstr(s))
+        if inp.get("sub") and ev["res"]["k"] == "ok":
+            # the result may hold the subclass instance itself; its repr / width are then the subclass's business and are
+            # not compared with those of a rebuilt value - C17 speaks about the text of the result only
+            ev["res"]["fr"] = 1
         return ev
 
     def classify(self, ev):
